@@ -16,3 +16,14 @@ Theorem C19_refactor_compositional : forall m k cs, m [] = None -> refactor m (N
 Proof. exact refactor_node. Qed.
 Theorem C19_refactor_hides_descendants : forall m m' t, m [] = m' [] -> m [] <> None -> refactor m t = refactor m' t.
 Proof. exact refactor_hides_descendants. Qed.
+
+(* the general statement, for ANY map (any set of mapped nodes): the code and the refactored text are the concatenations of
+   the old and the new texts of the same list of pieces, each piece being an unmapped leaf (copied verbatim) or a maximal
+   mapped subtree (replaced as a whole, prefix included) *)
+Theorem C19_refactor_is_splice : forall t m here,
+  get_code t = olds (frontier m here t) /\ refactor m t = news (frontier m here t).
+Proof. exact refactor_is_splice. Qed.
+Print Assumptions C19_refactor_is_splice.
+Theorem C19_pieces : forall t m here pc, In pc (frontier m here t) -> piece_ok m t here pc.
+Proof. exact frontier_pieces. Qed.
+Print Assumptions C19_pieces.
